@@ -21,6 +21,7 @@ var registry = map[string]func(*core.Run){
 	"C14": checks.C14,
 	"C16": checks.C16,
 	"C17": checks.C17,
+	"C18": checks.C18,
 	"C19": checks.C19,
 	"C20": checks.C20,
 	"C05": checks.C05,
